@@ -1,12 +1,12 @@
 """C06 plan."""
-from plan import R, D, stages
+from plan import R, D, T, stages
 import fuzzstage
 
 PLAN = dict(
     extra={"thorough": [fuzzstage.diff_stage(0, "C06")]},
     **stages(
-        quick=[(R, "quick", 16), (D, "small", 16)],
-        thorough=[(R, "thorough", 16), (D, "quick", 16)],
+        quick=[(R, "quick", 16), (D, "small", 16), (T, "small", 16)],
+        thorough=[(R, "thorough", 16), (D, "quick", 16), (T, "quick", 16)],
     ),
     rule=("a case is a pattern (glob, alternation, comparison, catch-all; or a real pkgsrc pattern) with a list of "
           "2-5 candidate names mixing matching and non-matching ones, different bases with tied versions, equal "
